@@ -242,11 +242,17 @@ def r4_cascade_file(ctx):
                           f"(e.g. de-duplication) makes the graph read back differ from the one written")
         else:
             ctx.ok("C12.R4", loc(rd), "from_serialised = cls(deserialise(dill.load(f)))")
-    for p in Interp(repo).explore(wr):
+    GQ = f"{G}.graph.Graph"
+    cases = [("a graph with one sink", Obj(GQ, {"sinks": [Obj(NODE, {"name": "n", "inputs": {}, "outputs": ["0"], "payload": 1}, name="N")]}, name="GRAPH")),
+             ("an empty graph", Obj(GQ, {"sinks": []}, name="GRAPH"))]
+    for label, gobj in cases:
+      for p in Interp(repo).explore(wr, env={"self._graph": gobj}):
         dumps = [e for e in p.effects if e.kind == "call" and e.data["name"] == "dill.dump"]
         opens = [e for e in p.effects if e.kind == "call" and e.data["name"] == "builtins.open"]
-        good = len(dumps) == 1 and isinstance(dumps[0].data["args"][0], App) and dumps[0].data["args"][0].fname == f"{EXP}.serialise" \
-            and vkey(dumps[0].data["args"][0].args[0]) == "self._graph" and opens and "wb" in opens[0].data["args"][1:]
+        d0 = dumps[0].data["args"][0] if len(dumps) == 1 and dumps[0].data["args"] else None
+        via_export = isinstance(d0, App) and d0.fname == f"{EXP}.serialise" and d0.args and (getattr(d0.args[0], "name", None) == "GRAPH" or vkey(d0.args[0]) == "self._graph")
+        empty_ok = label == "an empty graph" and d0 == {}  # the serialised form of a graph without nodes is the empty mapping
+        good = (via_export or empty_ok) and opens and "wb" in opens[0].data["args"][1:]
         if not good:
             ctx.violation("C12.R4", wr.qual, loc(wr), "file write path", "Cascade.serialise must dill.dump(serialise(self._graph)) into a file opened 'wb'")
         else:
